@@ -419,7 +419,7 @@ def observe_file(path, text):
                     SWITCH_SEEN.add((k, v))
             mocks.append({"iface": name, "struct": st, "data": None, "flags": flags, "types": parse_types(mm.group(4), mm.group(5))})
         bt = re.search(r"^//go:build (.+)$", text, re.M)
-        return {"kind": "builtin", "pkgname": pk.group(1), "clause": pk.group(1), "template": templ,
+        return {"kind": "builtin", "pkgname": pk.group(1), "clause": pk.group(1), "template": templ, "text": text,
                 "filedata": {"mock-build-tags": bt.group(1).strip()} if bt else {}, "formatter": None, "mocks": mocks}
     return {"kind": "unknown", "head": text[:200]}
 
@@ -643,6 +643,19 @@ def run_world_once(ctx, T, case, idx, quick):
                 J.viol("effective-mismatch", "force-file-write", ms[0], "existing file replaced (force-file-write effective true)", "file unchanged")
         if "log-level" in case.get("top", {}) and varies(case, "log-level"):
             check_log_level(J, res)
+    # ---- whole generated text of built-in-template mocks, keyed by everything the contract says it may depend on
+    texts = []
+    if ok and not J.bad and case["desc"].get("param", "").startswith("template-data@"):
+        for m in mocks:
+            o = obs.get(inst.rel(m))
+            if o is None or o["kind"] != "builtin" or len(o["mocks"]) != 1:
+                continue
+            key = json.dumps([m["template"], m["iface"], m["struct"], m["pkgname"], m["types"], m["formatter"],
+                              os.path.dirname(inst.rel(m)).startswith("out/"), m["filedata"].get("mock-build-tags"),
+                              {k: bool(m["data"].get(k, False)) for k in SWITCHES[m["template"]]}])
+            texts.append((key, o["text"], {"world": idx, "desc": case["desc"], "mock_from": m["from"], "how": m["how"],
+                                           "set_at": "+".join(J.where_set(m, "template-data")) or "nowhere",
+                                           "file_level": {k: bool(m["filedata"].get(k, False)) for k in SWITCHES[m["template"]]}}))
     # ---- focus runs: one expected-to-fail situation per run
     if ok and not J.bad:
         focus = []
@@ -724,6 +737,7 @@ def run_world_once(ctx, T, case, idx, quick):
             shutil.rmtree(fi.W, ignore_errors=True)
     if not os.environ.get("VERIF_KEEP"):
         shutil.rmtree(w.dir, ignore_errors=True)
+    inst.texts = texts
     return J.bad, stats, res, w, inst
 
 
@@ -863,6 +877,36 @@ def validate_traces(ctx, runs):
     return ok, rej
 
 
+# ----------------------------------------------------------------------------------------- whole-text comparison
+def compare_texts(groups, stats):
+    """The per-mock switches of the built-in templates (testify: unroll-variadic; matryer: with-resets, stub-impl,
+    skip-ensure) are read at several places of the template.  Two mocks of the same interface whose EFFECTIVE values
+    (and struct name, package name, signature types, header data) are equal must be generated byte-identically, no
+    matter at which levels the values were written: any difference is a consumer reading another level."""
+    import difflib
+    bad = []
+    stats["texts_compared"] = sum(len(v) for g in groups.values() for v in g.values())
+    stats["text_groups"] = len(groups)
+    stats["text_groups_with_several_placements"] = sum(1 for g in groups.values() if len({i["set_at"] for v in g.values() for i in v}) > 1)
+    for key, variants in groups.items():
+        if len(variants) < 2:
+            continue
+        k = json.loads(key)
+        # reference: the text generated where the package level agrees with the mock's own effective values
+        # (every consumer level gives the same answer there), else the most frequent one
+        ranked = sorted(variants.items(), key=lambda kv: (-sum(1 for i in kv[1] if i["file_level"] == k[8]), -len(kv[1])))
+        ref_text, ref_infos = ranked[0]
+        for text, infos in ranked[1:]:
+            diff = [ln for ln in difflib.unified_diff(ref_text.splitlines(), text.splitlines(), "reference placement", "this placement", lineterm="", n=1)][:40]
+            i = infos[0]
+            sig = {"kind": "text-differs-for-equal-effective-values", "param": "template-data@" + k[0], "template": k[0],
+                   "fam": "chain", "set_at": i["set_at"], "how": i["how"],
+                   "file_level_equals_mock_level": i["file_level"] == k[8]}
+            bad.append((sig, {"interface": k[1], "effective_switches": k[8], "this": infos[:3], "reference": ref_infos[:3], "diff": diff,
+                              "meaning": "same effective values, different generated mock: some read of the switch in the template uses another level"}))
+    return bad
+
+
 # ----------------------------------------------------------------------------------------- source of the config file
 def replay_config_sources(ctx, T, cases):
     """--config vs MOCKERY_CONFIG vs search (spec/ConfigSources.tla): which file is read is revealed by `dir`"""
@@ -983,6 +1027,8 @@ def vacuity(T, cases, stats):
         raise MachineryError(f"vacuous: only {len(packed)} packed worlds are well-formed")
     if not any(m["how"] == "subpkg" for c in cases for m in c["mocks"]) or not any(m["how"] == "unlisted" for c in cases for m in c["mocks"]):
         raise MachineryError("vacuous: no discovered sub-package / unlisted interface mocks")
+    if not stats["violations"] and stats.get("text_groups_with_several_placements", 0) < 4:
+        raise MachineryError("vacuous: whole-text comparison of built-in mocks never saw one effective value written at different levels")
     if not stats["violations"] and (stats["focus_force"] == 0 or stats["focus_poison"] == 0 or stats["focus_reject"] == 0):
         raise MachineryError("vacuous: no focus run for force-file-write=false / schema validation")
 
@@ -1030,6 +1076,7 @@ def run(ctx):
     bad_all = []
     stats = {"runs": 0, "mocks": 0, "focus": 0, "focus_force": 0, "focus_poison": 0, "focus_reject": 0}
     runs = []
+    text_groups = {}
     t0 = time.time()
     samples = []
     with cf.ThreadPoolExecutor(max_workers=int(os.environ.get("C08_JOBS", "12"))) as ex:
@@ -1037,6 +1084,8 @@ def run(ctx):
         for i, f in enumerate(futs):
             bad, st, res, w, inst = f.result()
             bad_all += bad
+            for key, text, info in inst.texts:
+                text_groups.setdefault(key, {}).setdefault(text, []).append(info)
             for k in stats:
                 stats[k] += st.get(k, 0)
             if res.code == 0 and not bad and res.trace:
@@ -1048,6 +1097,7 @@ def run(ctx):
                                 "contract_effective": {k: m[k] for k in ("template", "formatter", "data", "struct")},
                                 "file": os.path.relpath(m["path"], inst.W), "verdict": "observed = contract"})
     t_replay = time.time() - t0
+    bad_all += compare_texts(text_groups, stats)
     sw_bad = [x for x in bad_all if x[0].get("param", "").startswith("template-data[")]
     if sw_bad and len(SWITCH_SEEN) < 2 * (len(MATRYER_SWITCHES) + 1):
         raise MachineryError(f"built-in template switch observers saw only {sorted(SWITCH_SEEN)}: the template text changed, cannot observe")
@@ -1123,6 +1173,8 @@ def run(ctx):
     ctx.cov["focus_runs_force_false"] = stats["focus_force"]
     ctx.cov["focus_runs_schema_poison"] = stats["focus_poison"]
     ctx.cov["focus_runs_schema_reject_all"] = stats["focus_reject"]
+    ctx.cov["builtin_mock_texts_compared"] = stats.get("texts_compared", 0)
+    ctx.cov["builtin_mock_text_groups_with_several_level_placements"] = stats.get("text_groups_with_several_placements", 0)
     ctx.cov["distinct_nontrivial"] = len({json.dumps(c["desc"], sort_keys=True) for c in cases
                                           if c["desc"]["fam"] == "packed" or len(unjson(c["desc"]["S"]) or []) >= 1})
     ctx.cov["rule"] = ("one world per exported TLC state of ConfigTreeWorld.tla (parameter x level subset x value assignment x sharing mode, "
